@@ -335,4 +335,409 @@ theorem ops_PG : OpsPreserve PG := by
   · intro c r i o h; exact outcomeP_and (ops_PF.putSubs c r i o h.1) (putSubs_PN c r i o h.2)
   · intro c x h; exact ⟨ops_PF.slotat c x h.1, slotat_PN c x h.2⟩
 
+/-! ## garbage collection -/
+
+theorem removeSib_parent (s : Seg) (ap : Nat) : ∀ (fuel : Nat) (o : Option Nat) (j : Nat),
+    ((removeSib s ap fuel o).2.get j).parent = (s.get j).parent := by
+  intro fuel
+  induction fuel with
+  | zero => intro o j; unfold removeSib; rfl
+  | succ f ih =>
+    intro o j
+    cases o with
+    | none => unfold removeSib; rfl
+    | some p =>
+      unfold removeSib
+      split
+      · simp only []
+        rw [upd_parent_keep, upd_parent_keep] <;> (intro _; rfl)
+      · exact ih _ j
+
+theorem removeChild_parent (s : Seg) (i ap j : Nat) : ((removeChild s i ap).2.get j).parent = (s.get j).parent := by
+  unfold removeChild
+  split
+  · rfl
+  · split
+    · rfl
+    · split
+      · simp only []
+        rw [upd_parent_keep, upd_parent_keep] <;> (intro _; rfl)
+      · exact removeSib_parent s ap _ _ j
+
+theorem detachChildren_parent : ∀ (fuel : Nat) (s : Seg) (a j : Nat),
+    ((detachChildren s a fuel).get j).parent = (s.get j).parent ∨ ((detachChildren s a fuel).get j).parent = none := by
+  intro fuel
+  induction fuel with
+  | zero => intro s a j; exact .inl rfl
+  | succ f ih =>
+    intro s a j
+    unfold detachChildren
+    split
+    · exact .inl rfl
+    · rename_i c hc
+      split
+      · rcases ih (removeChild (s.upd c fun sl => sl.setParent none) a c).2 a j with h | h
+        · rw [h, removeChild_parent, get_upd]
+          split
+          · exact .inr rfl
+          · exact .inl rfl
+        · exact .inr h
+      · rcases ih (s.upd a fun sl => sl.setChild none) a j with h | h
+        · left; rw [h, upd_parent_keep]; intro _; rfl
+        · exact .inr h
+
+theorem freeSlot_parent (s : Seg) (a j : Nat) (hj : j ≠ a) :
+    ((s.freeSlot a).get j).parent = (s.get j).parent ∨ ((s.freeSlot a).get j).parent = none := by
+  unfold Seg.freeSlot
+  simp only []
+  rw [recycle_get_ne _ a j hj]
+  have h0 : ((s.dropEnds a).get j).parent = (s.get j).parent := ((dropEnds_treeSame s a).fld j).1
+  have h1 : (((s.dropEnds a).unchild a).get j).parent = (s.get j).parent := by
+    unfold Seg.unchild
+    split
+    · rw [removeChild_parent]; exact h0
+    · exact h0
+  rcases detachChildren_parent (((s.dropEnds a).unchild a).slots.size + 1) ((s.dropEnds a).unchild a) a j with h | h
+  · left; rw [h, h1]
+  · exact .inr h
+
+/-- freeing a marked slot keeps `PND` -/
+theorem freeSlot_PND {s : Seg} {l : List Nat} (hl : Linked s l) (hc : Clean s l) (hF : Forest s) (h : PND s) (a : Nat)
+    (hf : (s.get a).deleted = true ∨ (s.get a).copied = true) : PND (s.freeSlot a) := by
+  obtain ⟨_, _, hfr, hsz, hfree⟩ := freeSlot_QS hl hc a hf
+  have has : a < s.slots.size := by
+    apply Classical.byContradiction
+    intro hn
+    rw [get_oob s a (by omega)] at hf
+    rcases hf with hf | hf <;> cases hf
+  have hF' := freeSlot_forest hF has
+  intro j p hjr hjp
+  -- the freed slot is blank: it has no parent; and nobody's parent is on the free list
+  have hja : j ≠ a := fun hh => by
+    have := (hF'.free a (by rw [hfree]; exact List.mem_cons_self)).2.2
+    rw [hh, this] at hjp; cases hjp
+  have hpa : p ≠ a := fun hh => (hF'.par j p hjr hjp).2 (by rw [hfree, hh]; exact List.mem_cons_self)
+  rw [(hfr p hpa).2.2.1]
+  have hjr0 : Real s j := by unfold Real at hjr ⊢; rw [← (hfr j hja).2.2.2]; exact hjr
+  rcases freeSlot_parent s a j hja with h1 | h1
+  · rw [h1] at hjp; exact h j p hjr0 hjp
+  · rw [h1] at hjp; cases hjp
+
+theorem gcStep_PND (acc : Ctx × Option Nat) (k : Nat) {l : List Nat} (hjo : JO acc.1 l acc.2) (hF : Forest acc.1.seg) (h : PND acc.1.seg) :
+    PND (gcStep acc k).1.seg := by
+  unfold gcStep
+  split
+  · simp only []
+    split
+    · rename_i sl hsl hfl
+      exact freeSlot_PND (JO.linked hjo) (JO.clean hjo) hF h sl (by simpa using hfl)
+    · exact h
+  · exact h
+
+theorem gc_PND (c : Ctx) (a : Option Nat) {l : List Nat} (hjo : JO c l a) (hF : Forest c.seg)
+    (hc : ∀ k x, c.smap.getD k none = some x → x < c.seg.slots.size) (h : PND c.seg) : PND (collectGarbage c a).1.seg := by
+  unfold collectGarbage
+  generalize (List.range (c.size - 1)) = ks
+  have : ∀ (ks : List Nat) (acc : Ctx × Option Nat), JO acc.1 l acc.2 → Forest acc.1.seg →
+      (∀ k x, acc.1.smap.getD k none = some x → x < acc.1.seg.slots.size) → PND acc.1.seg → PND (ks.foldl gcStep acc).1.seg := by
+    intro ks
+    induction ks with
+    | nil => intro acc _ _ _ h; exact h
+    | cons k rest ih =>
+      intro acc hjo' hF' hc' h'
+      obtain ⟨g1, g2, g3⟩ := gcStep_forest acc k hF' hc'
+      exact ih _ (gcStep_JO acc k hjo') g1 (fun k' x hx => by rw [g2] at hx; rw [g3]; exact hc' k' x hx) (gcStep_PND acc k hjo' hF' h')
+  exact this ks (c, a) hjo hF hc h
+
+theorem finishAction_PND (s : St) (dl : Bool) (hpg : PG s.ctx)
+    {r : Int} {st : Status} {so : Option Nat} {c : Ctx} (e : finishAction s dl = .ok (r, st, so, c)) : PND c.seg := by
+  obtain ⟨⟨⟨l, hj⟩, hF, hcells⟩, h⟩ := hpg
+  unfold finishAction at e
+  simp only [] at e
+  split at e
+  · cases e
+  · rename_i hb
+    have hb' : 0 ≤ s.ctx.map ∧ s.ctx.map.toNat < s.ctx.smap.size := by
+      apply Classical.byContradiction; intro hn; exact hb hn
+    have hrd := storeIs_read s.ctx hb'
+    have hbase : JO s.ctx.storeIs l (s.ctx.storeIs.smap.getD s.ctx.storeIs.map.toNat none) := by
+      rw [hrd]; exact JO.mk' hj.linked hj.clean hj.isok hj.hw hj.alloc
+    split at e
+    · cases e
+    · split at e
+      · cases e; exact h
+      · split at e
+        · cases e
+          refine gc_PND s.ctx.storeIs _ hbase (show Forest s.ctx.storeIs.seg from hF) ?_ (show PND s.ctx.storeIs.seg from h)
+          intro k x hx
+          show x < s.ctx.seg.slots.size
+          unfold Ctx.storeIs Ctx.setCell at hx
+          simp only [] at hx
+          rw [Array.getD_eq_getD_getElem?, Array.getElem?_setIfInBounds] at hx
+          split at hx
+          · split at hx
+            · simp only [Option.getD_some] at hx
+              exact (hj.is_facts hx).1
+            · simp at hx
+          · exact (hcells k x (by rw [Array.getD_eq_getD_getElem?]; exact hx)).1
+        · cases e; exact h
+
+theorem doAction_PND {is : List Instr} {dl : Bool} {mr : Nat} {data : List Nat} {ctx : Ctx} {l : List Nat}
+    (hl : Linked ctx.seg l) (hc : Clean ctx.seg l) (hh : HwOK ctx.highwater l)
+    (hcell : IsOK ctx.seg l (ctx.smap.getD ((ctx.context : Int) + 1).toNat none)) (ha : Alloc ctx.seg l)
+    (hF : Forest ctx.seg) (hcells : CellsOK ctx) (h : PND ctx.seg)
+    {r : Int} {st : Status} {so : Option Nat} {c : Ctx}
+    (e : doAction is dl mr data ctx = .ok (r, st, so, c)) : PND c.seg := by
+  unfold doAction at e
+  simp only [] at e
+  split at e
+  · cases e; exact h
+  · have h0 : PG (enterCtx (startCtx ctx)) := ⟨⟨⟨l, ⟨hl, hc, hcell, hh, ha⟩⟩, hF, hcells⟩, h⟩
+    have hr := runLoop_preserves PG ops_PG is { vm := initVm data, ctx := enterCtx (startCtx ctx) } h0
+    split at e
+    · cases e
+    · rename_i s heq
+      rw [heq] at hr
+      exact finishAction_PND s dl hr e
+
 end GrVerif.Action
+
+namespace GrVerif.Pass
+open GrVerif.Vm GrVerif.Seg GrVerif.Action GrVerif.Gen.Vm
+
+theorem findNDoRule_PND (p : PassT) (c : Ctx) (slot : Nat) {l : List Nat} (h : JO c l (some slot)) (hF : Forest c.seg) (hP : PND c.seg)
+    {c' : Ctx} {s' : Option Nat} {st : Status} (e : findNDoRule p c slot = .ok (c', s', st)) : PND c'.seg := by
+  obtain ⟨f1, f2, f3⟩ := runFSM_spec p c slot (JO.linked h) (JO.isok h)
+  unfold findNDoRule at e
+  revert f1 f2 f3 e
+  generalize runFSM p c slot = r
+  obtain ⟨ok, c1, rules⟩ := r
+  intro e f1 f2 f3
+  simp only [] at f1 f2 f3 e
+  have h1 : JO c1 l (some slot) := JO.congr h f1 f2
+  have hF1 : Forest c1.seg := by rw [f1]; exact hF
+  have hP1 : PND c1.seg := by rw [f1]; exact hP
+  split at e
+  · cases e; exact hP1
+  · split at e
+    · cases e
+    · split at e
+      · cases e; exact hP1
+      · cases e; exact hP1
+    · split at e
+      · cases e; exact hP1
+      · split at e
+        · cases e
+        · split at e
+          · cases e
+          · rename_i ret status slotOut c2 hact
+            have hcell : IsOK c1.seg l (c1.smap.getD ((c1.context : Int) + 1).toNat none) := by rw [f1]; exact f3 _
+            have hcells : CellsOK c1 := cellsOK_of_isok (JO.linked h1) (JO.clean h1) (fun k => by rw [f1]; exact f3 k)
+            have hP2 := doAction_PND (JO.linked h1) (JO.clean h1) (JO.hw h1) hcell (JO.alloc h1) hF1 hcells hP1 hact
+            split at e
+            · cases e; exact hP2
+            · have a1 := adjustSlot_seg c2 ret slotOut
+              revert a1 e
+              generalize adjustSlot c2 ret slotOut = ar
+              obtain ⟨c3, so3⟩ := ar
+              intro e a1
+              simp only [] at a1 e
+              cases e
+              rw [a1]; exact hP2
+
+theorem ruleLoop_PND (p : PassT) : ∀ (fuel : Nat) (c : Ctx) (s : Nat) (lc : Int) (it : Nat) {l : List Nat}, JO c l (some s) →
+    Forest c.seg → PND c.seg → ∀ {c' : Ctx} {n : Nat}, ruleLoop p fuel c s lc it = .ok (some c', n) → PND c'.seg := by
+  intro fuel
+  induction fuel with
+  | zero => intro c s lc it l _ _ _ c' n e; unfold ruleLoop at e; cases e
+  | succ f ih =>
+    intro c s lc it l h hF hP c' n e
+    unfold ruleLoop at e
+    split at e
+    · cases e
+    · rename_i c1 s1 st hf
+      obtain ⟨l1, j1⟩ := findNDoRule_spec p c s h hf
+      have hF1 := findNDoRule_forest p c s h hF hf
+      have hP1 := findNDoRule_PND p c s h hF hP hf
+      split at e
+      · cases e
+      · split at e
+        · cases e; exact hP1
+        · rename_i s2
+          simp only [] at e
+          have hs3ok : ∀ (q : Prop) [Decidable q] (s3 : Nat), (if q then c1.highwater else some s2) = some s3 →
+              IsOK c1.seg l1 (some s3) := by
+            intro q _ s3 hs3
+            split at hs3
+            · exact isok_of_mem (JO.hw j1 s3 hs3)
+            · cases hs3; exact JO.isok j1
+          by_cases hit : (some s2 = c1.highwater ∨ c1.highpassed = true)
+          · simp only [hit, if_true, true_or] at e
+            split at e
+            · rename_i s3 hs3
+              first
+                | exact ih _ s3 _ _ (restartAt_JO j1 (hs3ok _ s3 hs3)) (show Forest (c1.restartAt s3).seg from hF1) (show PND (c1.restartAt s3).seg from hP1) e
+                | exact ih _ s3 _ _ (restartAt_JO j1 (isok_of_mem (JO.hw j1 s3 hs3))) (show Forest (c1.restartAt s3).seg from hF1) (show PND (c1.restartAt s3).seg from hP1) e
+            · cases e; exact hP1
+          · simp only [hit, if_false, false_or] at e
+            split at e
+            · split at e
+              · rename_i s3 hs3
+                first
+                  | exact ih _ s3 _ _ (restartAt_JO j1 (hs3ok _ s3 hs3)) (show Forest (c1.restartAt s3).seg from hF1) (show PND (c1.restartAt s3).seg from hP1) e
+                  | exact ih _ s3 _ _ (restartAt_JO j1 (isok_of_mem (JO.hw j1 s3 hs3))) (show Forest (c1.restartAt s3).seg from hF1) (show PND (c1.restartAt s3).seg from hP1) e
+              · cases e; exact hP1
+            · exact ih _ s2 _ _ j1 hF1 hP1 e
+
+theorem runPass_PND (p : PassT) (c : Ctx) (fuel : Nat) (h : WF c.seg) (hF : Forest c.seg) (hP : PND c.seg) {c' : Ctx}
+    (e : runPass p c fuel = .ok (some c')) : PND c'.seg := by
+  obtain ⟨l, hl, hc, hal⟩ := h
+  unfold runPass at e
+  split at e
+  · cases e; exact hP
+  · rename_i s0 hs0
+    split at e
+    · cases e; exact hP
+    · simp only [] at e
+      split at e
+      · cases e
+      · cases e
+      · rename_i c2 it hr
+        cases e
+        have hs0l : s0 ∈ l := head?_mem (by rw [← hl.first]; exact hs0)
+        have j0 : JO (c.restartAt s0) l (some s0) :=
+          JO.mk' hl hc (isok_of_mem hs0l) (fun x hx => next_mem hl hs0l x hx) hal
+        rw [noteLoop_seg]
+        exact ruleLoop_PND p fuel _ s0 _ 0 j0 (show Forest (c.restartAt s0).seg from hF) (show PND (c.restartAt s0).seg from hP) hr
+
+theorem runRange_PND (passes : Array PassT) (c : Ctx) (lo hi fuel : Nat) (h : WF c.seg) (hF : Forest c.seg) (hP : PND c.seg) {c' : Ctx}
+    (e : runRange passes c lo hi fuel = .ok (some c')) : PND c'.seg := by
+  unfold runRange at e
+  simp only [] at e
+  revert e
+  have h0 : WF (c.beginRange (c.seg.numGlyphs * 64)).seg ∧ Forest (c.beginRange (c.seg.numGlyphs * 64)).seg ∧
+      PND (c.beginRange (c.seg.numGlyphs * 64)).seg := ⟨h, hF, hP⟩
+  revert h0
+  generalize (c.beginRange (c.seg.numGlyphs * 64)) = c0
+  generalize (List.range (hi - lo)) = ks
+  intro h0
+  have : ∀ (ks : List Nat) (acc : Except String (Option Ctx)), (∀ x, acc = .ok (some x) → WF x.seg ∧ Forest x.seg ∧ PND x.seg) →
+      ∀ x, ks.foldl (fun (acc : Except String (Option Ctx)) k =>
+        match acc with
+        | .ok (some c1) =>
+          (match runPass (passes.getD (lo + k) default) c1 fuel with
+           | .ok (some c2) => if c2.seg.numGlyphs > 0 ∧ c2.seg.numGlyphs > c.seg.numGlyphs * 64 then .ok none else .ok (some c2)
+           | o => o)
+        | o => o) acc = .ok (some x) → WF x.seg ∧ Forest x.seg ∧ PND x.seg := by
+    intro ks
+    induction ks with
+    | nil => intro acc ha x hx; exact ha x hx
+    | cons k rest ih =>
+      intro acc ha x hx
+      simp only [List.foldl_cons] at hx
+      refine ih _ ?_ x hx
+      intro y hy
+      split at hy
+      · rename_i c1
+        split at hy
+        · rename_i c2 hp
+          split at hy
+          · cases hy
+          · cases hy
+            have a := ha c1 rfl
+            exact ⟨runPass_spec _ c1 fuel a.1 hp, runPass_forest _ c1 fuel a.1 a.2.1 hp, runPass_PND _ c1 fuel a.1 a.2.1 a.2.2 hp⟩
+        · rename_i o hno
+          exact absurd hy (by
+            intro hh
+            exact hno y (by rw [hh]))
+      · rename_i o hno
+        exact absurd hy (fun hh => hno y hh)
+  intro e
+  exact (this ks (.ok (some c0)) (fun x hx => by cases hx; exact h0) c' e).2.2
+
+theorem pnd_of_allIso {s : Seg} (h : AllIso s) : PND s := fun j p _ hp => by rw [(h j).1] at hp; cases hp
+
+theorem foldl_upd_PND {α : Type} (ix : α → Nat) (f : α → Slot → Slot)
+    (hf : ∀ x a, (f x a).parent = a.parent ∧ (f x a).copied = a.copied ∧ (f x a).deleted = a.deleted) :
+    ∀ (xs : List α) (s : Seg), PND s → PND (xs.foldl (fun s x => s.upd (ix x) (f x)) s) := by
+  intro xs
+  induction xs with
+  | nil => intro s h; exact h
+  | cons x rest ih =>
+    intro s h
+    simp only [List.foldl_cons]
+    exact ih _ (h.updKeep (ix x) (f x) (hf x))
+
+theorem reassoc_PND {seg seg' : Seg} {n : Nat} {ci : List Assoc.CI} (h : PND seg) (e : reassoc seg n = some (seg', ci)) : PND seg' := by
+  unfold reassoc at e
+  simp only [] at e
+  split at e
+  · cases e
+  · simp only [Option.some.injEq, Prod.mk.injEq] at e
+    rw [← e.1]
+    apply foldl_upd_PND (fun (x : Nat × Nat) => x.1) (fun x sl => sl.setIndex x.2) (fun _ _ => ⟨rfl, rfl, rfl⟩)
+    exact foldl_upd_PND (fun (x : Nat × Int × Int) => x.1) (fun x sl => (sl.setBefore x.2.1).setAfter x.2.2)
+      (fun _ _ => ⟨rfl, rfl, rfl⟩) _ _ h
+
+theorem initSeg_allIso (font : Font) (text : List Nat) : AllIso (initSeg font text) := by
+  unfold initSeg
+  simp only []
+  have h0 : AllIso ({ numGlyphs := text.length, numChars := text.length, slots := Array.replicate (text.length + 10) ({} : Slot), free := List.range (text.length + 10), bufSize := Nat.log2 text.length + 1 } : Seg) := by
+    intro j
+    rw [get_replicate_default (text.length + 10) j _ rfl]
+    exact ⟨rfl, rfl, rfl, rfl⟩
+  have : ∀ (xs : List (Nat × Nat)) (s : Seg), AllIso s →
+      AllIso (xs.foldl (fun s (x : Nat × Nat) => s.appendSlot x.2 (font.cmap x.1) 64 (font.gadv.getD (font.cmap x.1) 0)) s) := by
+    intro xs
+    induction xs with
+    | nil => intro s h; exact h
+    | cons x rest ih => intro s h; exact ih _ (appendSlot_allIso h _ _ _ _)
+  exact this _ _ h0
+
+theorem shape_PND (font : Font) (text : List Nat) (fuel : Nat) {c : Ctx} {ci : List Assoc.CI}
+    (e : shape font text fuel = .ok (some (c, ci))) : PND c.seg := by
+  unfold shape at e
+  split at e
+  · simp only [Except.ok.injEq, Option.some.injEq, Prod.mk.injEq] at e
+    rw [← e.1]
+    intro j p _ hp
+    rw [get_oob ({} : Seg) j (by show (#[] : Array Slot).size ≤ j; simp)] at hp
+    cases hp
+  · split at e
+    · cases e
+    · cases e
+    · rename_i c1 h1
+      have hw0 := initSeg_wf font text
+      have hf0 := initSeg_forest font text
+      have hp0 := pnd_of_allIso (initSeg_allIso font text)
+      have w1 := runRange_spec _ _ _ _ _ hw0 h1
+      have f1 := runRange_forest _ _ _ _ _ hw0 hf0 h1
+      have p1 := runRange_PND _ _ _ _ _ hw0 hf0 hp0 h1
+      split at e
+      · cases e
+      · rename_i seg' ci' hre
+        have w2 := reassoc_wf w1 hre
+        have f2 := reassoc_forest f1 hre
+        have p2 := reassoc_PND p1 hre
+        split at e
+        · cases e
+        · cases e
+        · rename_i c2 h2
+          simp only [Except.ok.injEq, Option.some.injEq, Prod.mk.injEq] at e
+          rw [← e.1]
+          exact runRange_PND _ _ _ _ _ w2 f2 p2 h2
+
+/-- **C04: attachments stay inside the segment.** In every segment the modelled pipeline returns, a slot of the stream that
+is attached is attached to a slot of the stream. -/
+theorem shape_parents_in_stream (font : Font) (text : List Nat) (fuel : Nat) {c : Ctx} {ci : List Assoc.CI}
+    (e : shape font text fuel = .ok (some (c, ci))) :
+    ∃ l, Linked c.seg l ∧ Clean c.seg l ∧ ∀ j ∈ l, ∀ p, (c.seg.get j).parent = some p → p ∈ l := by
+  obtain ⟨l, hl, hc, hal⟩ := shape_wf font text fuel e
+  have hF := shape_forest font text fuel e
+  have hP := shape_PND font text fuel e
+  refine ⟨l, hl, hc, fun j hj p hp => ?_⟩
+  have hjr : Real c.seg j := (hc.live j hj).2
+  have h1 := hF.par j p hjr hp
+  exact hal p (forest_parent_inb hF hjr hp) h1.2 h1.1 (hP j p hjr hp)
+
+end GrVerif.Pass
